@@ -1,10 +1,24 @@
 /-
   C04 — output side effects occur once per execution, in search order.
-  (Agreement of the engine's output with the reference search is the output component of the
-  engine-vs-machine comparison, run on every check; theorems below are the local facts.)
+  Proved: on the cut-free, negation-free fragment the text written up to every request is the text
+  the reference machine has written at the corresponding point of its run (`output_in_search_order`,
+  the output component of the refinement theorem C01_pure: the machine executes a print / print_list
+  / nl goal exactly when depth-first search reaches it, once per execution, retries included); and the
+  local facts below. For programs with `!`, `not`, `time` the agreement of the output with the
+  reference search is the output component of the engine-vs-machine comparison, run on every check.
 -/
 import SuironVerif.Lemmas.Exhausted
+import SuironVerif.Lemmas.EngineRefine
 namespace Suiron.C04
+
+/-- the text written so far, request after request, is the reference machine's (each trace entry pairs the
+    answer with the complete output at that moment) -/
+theorem output_in_search_order (fo : FloatOps) (kb : KB)
+    (hkb : ∀ key rs, kb.get key = some rs → ∀ r ∈ rs, r.body.isNil = true ∨ Spec.pureG r.body = true)
+    (q : Term) (σ0 : Subst) (g0 g1 : G) (node : Node)
+    (hmk : mkNode fo.showF kb (.call q) σ0 g0 = .ok (node, g1)) (hg : Spec.GOK g0) (fs : List Nat) :
+    Spec.MRun fo kb ⟨[.goals [.call q] σ0], g0.counter, g0.out⟩ (Spec.askOut fo kb fs node g1) :=
+  Spec.query_refines_machine fo kb (Spec.pureKB_of_rules kb hkb) q σ0 g0 g1 node hmk hg fs
 
 /-- a built-in node runs its effect on the first request only: afterwards it is exhausted, and an
     exhausted node writes nothing. -/
